@@ -492,27 +492,84 @@ the question the wire bytes spell, every further one is linked. -/
 def WireHitOK (w : Bytes) (qtype qclass : UInt16) (cd : Bool) (es : List Entry) : Prop :=
   ∃ e rest p, es = e :: rest ∧ present w = some p ∧ Identical e p qtype qclass cd none ∧ Linked qtype qclass cd es
 
-/-- **Wire path of `Cache.ServeDNS`** (`serveWire`, chase, `serveCompositeFromWire`,
-then the decoded fallback), all rungs. -/
+/-- what the wire path may answer a wire-born question with. -/
+def WireOutcomeOK (w : Bytes) (qtype qclass : UInt16) (cd : Bool) : Outcome → Prop
+  | Outcome.hit es => WireHitOK w qtype qclass cd es
+  | Outcome.cut c => cd = false ∧ c.qclass = qclass ∧
+      ((∃ z ∈ wireSuffixes w.length w, ∃ pz, present z = some pz ∧ foldName pz = foldName c.name) ∨
+       (∃ p, present w = some p ∧ c.name ∈ cutSuffixes (canonicalName p)))
+  | Outcome.fail f => WireFailOK w qtype qclass cd f ∨ ∃ p, present w = some p ∧ FailOK p qtype qclass cd none f
+  | Outcome.miss => True
+
+/-- **Byte rungs of the wire path** (`serveWire` exact stage, chase, `serveCompositeFromWire`). -/
+theorem ladder_identity_serveWireCore (H : Bytes → UInt64) (W : World) (w : Bytes) (qtype qclass : UInt16) (cd : Bool)
+    (due : Entry → Bool) (o : Outcome) (h : serveWireCore H W w qtype qclass cd due = some o) :
+    WireOutcomeOK w qtype qclass cd o := by
+  unfold serveWireCore at h
+  cases hw : wireHit H W.st w qtype qclass cd with
+  | some e =>
+    simp only [hw] at h
+    obtain ⟨p, hp, hid⟩ := route_identity_wireHit H W.st w qtype qclass cd e hw
+    by_cases hdue : due e = true
+    · simp [hdue] at h
+    have hdf : due e = false := by simpa using hdue
+    simp only [hdf, Bool.false_eq_true, if_false] at h
+    cases ha : e.alias with
+    | none =>
+      simp only [ha, Option.some.injEq] at h
+      subst h
+      exact ⟨e, [], p, rfl, hp, hid, trivial⟩
+    | some t =>
+      simp only [ha] at h
+      cases hc : collectWireChase H W.st w qtype qclass cd maxWireChaseHops e [] with
+      | none => simp [hc] at h
+      | some es =>
+        simp only [hc, Option.map_some, Option.some.injEq] at h
+        subst h
+        obtain ⟨hh, hl⟩ := route_identity_chase H W.st w qtype qclass cd _ e [] es hc
+        cases es with
+        | nil => simp at hh
+        | cons e0 rest =>
+          simp only [List.head?_cons, Option.some.injEq] at hh
+          subst hh
+          exact ⟨e0, rest, p, rfl, hp, hid, hl⟩
+  | none =>
+    simp only [hw] at h
+    cases cd with
+    | true =>
+      rw [if_pos rfl] at h
+      cases hf : failureLookupWire H W.fs w qtype qclass true with
+      | some f =>
+        simp only [hf, Option.map_some, Option.some.injEq] at h
+        subst h
+        exact Or.inl (route_identity_failureLookupWire H W.fs w qtype qclass true f hf)
+      | none => simp [hf] at h
+    | false =>
+      rw [if_neg Bool.false_ne_true] at h
+      cases hc : cutLookupWire H W.cs w qclass with
+      | some c =>
+        simp only [hc, Option.some.injEq] at h
+        subst h
+        obtain ⟨_, h2, h3⟩ := route_identity_cutLookupWire H W.cs w qclass c hc
+        exact ⟨rfl, h2, Or.inl h3⟩
+      | none =>
+        simp only [hc] at h
+        cases hf : failureLookupWire H W.fs w qtype qclass false with
+        | some f =>
+          simp only [hf, Option.map_some, Option.some.injEq] at h
+          subst h
+          exact Or.inl (route_identity_failureLookupWire H W.fs w qtype qclass false f hf)
+        | none => simp [hf] at h
+
+/-- **Wire path of `Cache.ServeDNS`** (byte rungs, then the decoded fallback), all rungs. -/
 theorem ladder_identity_serveWire (H : Bytes → UInt64) (W : World) (w : Bytes) (qtype qclass : UInt16) (cd : Bool)
     (due : Entry → Bool) :
-    match serveWire H W w qtype qclass cd due with
-    | Outcome.hit es => WireHitOK w qtype qclass cd es
-    | Outcome.cut c => cd = false ∧ c.qclass = qclass ∧
-        ((∃ z ∈ wireSuffixes w.length w, ∃ pz, present z = some pz ∧ foldName pz = foldName c.name) ∨
-         (∃ p, present w = some p ∧ c.name ∈ cutSuffixes (canonicalName p)))
-    | Outcome.fail f => WireFailOK w qtype qclass cd f ∨ ∃ p, present w = some p ∧ FailOK p qtype qclass cd none f
-    | Outcome.miss => True := by
-  -- the decoded fallback, shared by every decline
-  have decoded : match (match present w with
-        | some name => serveMsg H W name qtype qclass cd none false
-        | none => Outcome.miss) with
-      | Outcome.hit es => WireHitOK w qtype qclass cd es
-      | Outcome.cut c => cd = false ∧ c.qclass = qclass ∧
-          ((∃ z ∈ wireSuffixes w.length w, ∃ pz, present z = some pz ∧ foldName pz = foldName c.name) ∨
-           (∃ p, present w = some p ∧ c.name ∈ cutSuffixes (canonicalName p)))
-      | Outcome.fail f => WireFailOK w qtype qclass cd f ∨ ∃ p, present w = some p ∧ FailOK p qtype qclass cd none f
-      | Outcome.miss => True := by
+    WireOutcomeOK w qtype qclass cd (serveWire H W w qtype qclass cd due) := by
+  unfold serveWire
+  cases hc : serveWireCore H W w qtype qclass cd due with
+  | some o => exact ladder_identity_serveWireCore H W w qtype qclass cd due o hc
+  | none =>
+    simp only
     cases hp : present w with
     | none => trivial
     | some p =>
@@ -522,60 +579,158 @@ theorem ladder_identity_serveWire (H : Bytes → UInt64) (W : World) (w : Bytes)
       | hit es =>
         rw [hs] at this
         obtain ⟨e, rfl, hid⟩ := this
-        rcases hid with hid | ⟨c, _, hc, _⟩
+        rcases hid with hid | ⟨c, _, hc', _⟩
         · exact ⟨e, [], p, rfl, hp, hid, trivial⟩
-        · cases hc
+        · cases hc'
       | cut c =>
         rw [hs] at this
-        exact ⟨this.1, this.2.2.2.1, Or.inr ⟨p, rfl, this.2.2.2.2⟩⟩
+        exact ⟨this.1, this.2.2.2.1, Or.inr ⟨p, hp, this.2.2.2.2⟩⟩
       | fail f =>
         rw [hs] at this
-        exact Or.inr ⟨p, rfl, this⟩
+        exact Or.inr ⟨p, hp, this⟩
       | miss => trivial
-  unfold serveWire
-  simp only
-  cases hw : wireHit H W.st w qtype qclass cd with
-  | some e =>
-    simp only
-    obtain ⟨p, hp, hid⟩ := route_identity_wireHit H W.st w qtype qclass cd e hw
-    by_cases hdue : due e = true
-    · simp only [hdue, if_true]; exact decoded
-    simp only [hdue]
-    cases ha : e.alias with
-    | none => exact ⟨e, [], p, rfl, hp, hid, trivial⟩
-    | some t =>
+
+/-! ## The decoded CNAME chase -/
+
+/-- a hop of the decoded chase: the SHARED entry of some question of the requested type,
+class and CD partition. -/
+def HopOK (qtype qclass : UInt16) (cd : Bool) (e : Entry) : Prop := ∃ n, Identical e n qtype qclass cd none
+
+/-- the entries whose records a reply carries. -/
+def replyEntries : MsgReply → List Entry
+  | MsgReply.answer es => es
+  | MsgReply.nx es _ => es
+  | _ => []
+
+theorem chaseLoop_spec (sub : Bytes → MsgReply) (qname : Bytes) (qtype qclass : UInt16) (cd : Bool)
+    (hsub : ∀ t, ∀ e ∈ replyEntries (sub t), HopOK qtype qclass cd e) :
+    ∀ (fuel : Nat) (target : Bytes) (targets : List Bytes) (acc : List Entry),
+      replyEntries (chaseLoop sub qname qtype fuel target targets acc) = [] ∨
+      ∃ more, replyEntries (chaseLoop sub qname qtype fuel target targets acc) = acc ++ more ∧
+        ∀ e ∈ more, HopOK qtype qclass cd e := by
+  intro fuel
+  induction fuel with
+  | zero => intro t ts acc; exact Or.inr ⟨[], by simp [chaseLoop, replyEntries], by simp⟩
+  | succ n ih =>
+    intro t ts acc
+    unfold chaseLoop
+    split
+    · exact Or.inl rfl
+    · have hs := hsub t
+      cases hst : sub t with
+      | answer es =>
+        rw [hst] at hs
+        simp only
+        split
+        · exact Or.inl rfl
+        · split
+          · rcases ih (lastCnameTarget es) (ts ++ [t]) (acc ++ es) with h | ⟨more, h1, h2⟩
+            · exact Or.inl h
+            · refine Or.inr ⟨es ++ more, by rw [h1, List.append_assoc], ?_⟩
+              intro e he
+              rcases List.mem_append.mp he with he | he
+              · exact hs e he
+              · exact h2 e he
+          · exact Or.inr ⟨es, rfl, hs⟩
+      | nx es c =>
+        rw [hst] at hs
+        exact Or.inr ⟨es, rfl, hs⟩
+      | failed f => exact Or.inl rfl
+      | miss => exact Or.inr ⟨[], by simp [replyEntries], by simp⟩
+
+/-- **Decoded alias chase** (`handleCacheHit` → `additionalAnswer` → Queryer → the decoded
+body again, nested up to `maxCnameChaseDepth`): the first entry of a reply is the verified
+entry of the client's question and audience; every further entry went through the same
+full-preimage verification for a question of the same type, class and CD partition, shared
+audience.  (Before /repo 016280b the hop was asked in class IN; the witness that exposed it
+is corpus/C03/09-chase-class.ops.) -/
+theorem route_identity_msgChase (H : Bytes → UInt64) (W : World) (qtype : UInt16) (cd hasECS : Bool) :
+    ∀ (d : Nat) (name : Bytes) (qclass : UInt16) (client : Scope),
+      replyEntries (msgReplyAt H W qtype cd hasECS d name qclass client) = [] ∨
+      ∃ e0 rest, replyEntries (msgReplyAt H W qtype cd hasECS d name qclass client) = e0 :: rest ∧
+        ExactOK name qtype qclass cd client e0 ∧ ∀ e ∈ rest, HopOK qtype qclass cd e := by
+  intro d
+  induction d with
+  | zero =>
+    intro name qclass client
+    unfold msgReplyAt
+    have := ladder_identity_serveMsg H W name qtype qclass cd client hasECS
+    cases hs : serveMsg H W name qtype qclass cd client hasECS with
+    | hit es =>
+      rw [hs] at this
+      obtain ⟨e, rfl, hid⟩ := this
+      exact Or.inr ⟨e, [], rfl, hid, by simp⟩
+    | cut c => exact Or.inl rfl
+    | fail f => exact Or.inl rfl
+    | miss => exact Or.inl rfl
+  | succ n ih =>
+    intro name qclass client
+    -- every sub-query reply consists of hop entries
+    have hsub : ∀ t, ∀ e ∈ replyEntries (msgReplyAt H W qtype cd hasECS n t qclass none), HopOK qtype qclass cd e := by
+      intro t e he
+      rcases ih t qclass none with h | ⟨e0, rest, h, h0, hr⟩
+      · rw [h] at he; cases he
+      · rw [h] at he
+        rcases List.mem_cons.mp he with rfl | he
+        · rcases h0 with hid | ⟨c, _, hc, _⟩
+          · exact ⟨t, hid⟩
+          · cases hc
+        · exact hr e he
+    unfold msgReplyAt
+    have hl := ladder_identity_serveMsg H W name qtype qclass cd client hasECS
+    cases hs : serveMsg H W name qtype qclass cd client hasECS with
+    | hit es =>
+      rw [hs] at hl
+      obtain ⟨e, rfl, hid⟩ := hl
       simp only
-      cases hc : collectWireChase H W.st w qtype qclass cd maxWireChaseHops e [] with
-      | none => exact decoded
-      | some es =>
-        obtain ⟨hh, hl⟩ := route_identity_chase H W.st w qtype qclass cd _ e [] es hc
-        cases es with
-        | nil => simp at hh
-        | cons e0 rest =>
-          simp only [List.head?_cons, Option.some.injEq] at hh
-          subst hh
-          exact ⟨e0, rest, p, rfl, hp, hid, hl⟩
-  | none =>
-    simp only
-    revert decoded
-    cases cd with
-    | true =>
-      intro decoded
-      rw [if_pos rfl]
-      cases hf : failureLookupWire H W.fs w qtype qclass true with
-      | some f => exact Or.inl (route_identity_failureLookupWire H W.fs w qtype qclass true f hf)
-      | none => exact decoded
-    | false =>
-      intro decoded
-      rw [if_neg Bool.false_ne_true]
-      cases hc : cutLookupWire H W.cs w qclass with
-      | some c =>
-        obtain ⟨_, h2, h3⟩ := route_identity_cutLookupWire H W.cs w qclass c hc
-        exact ⟨rfl, h2, Or.inl h3⟩
-      | none =>
-        cases hf : failureLookupWire H W.fs w qtype qclass false with
-        | some f => exact Or.inl (route_identity_failureLookupWire H W.fs w qtype qclass false f hf)
-        | none => exact decoded
+      unfold additionalAnswer
+      split
+      · exact Or.inr ⟨e, [], rfl, hid, by simp⟩
+      · cases ha : e.alias with
+        | none => exact Or.inr ⟨e, [], rfl, hid, by simp⟩
+        | some t =>
+          simp only
+          cases hp : present t with
+          | none => exact Or.inr ⟨e, [], rfl, hid, by simp⟩
+          | some tp =>
+            simp only
+            split
+            · exact Or.inl rfl
+            · split
+              · exact Or.inr ⟨e, [], rfl, hid, by simp⟩
+              · rcases chaseLoop_spec _ name qtype qclass cd hsub maxCnameHops tp [] [e] with h | ⟨more, h1, h2⟩
+                · exact Or.inl h
+                · exact Or.inr ⟨e, more, by rw [h1]; rfl, hid, h2⟩
+    | cut c => exact Or.inl rfl
+    | fail f => exact Or.inl rfl
+    | miss => exact Or.inl rfl
+
+/-- every entry the decoded body composes into a reply has the question's own type,
+class and CD partition. -/
+theorem msgChase_entries_in_partition (H : Bytes → UInt64) (W : World) (name : Bytes) (qtype qclass : UInt16) (cd : Bool)
+    (client : Scope) (hasECS : Bool) (e : Entry)
+    (he : e ∈ replyEntries (serveMsgFull H W name qtype qclass cd client hasECS)) :
+    e.qtype = qtype ∧ e.qclass = qclass ∧ e.cd = cd := by
+  unfold serveMsgFull at he
+  rcases route_identity_msgChase H W qtype cd hasECS maxCnameChaseDepth name qclass client with h | ⟨e0, rest, h, h0, hr⟩
+  · rw [h] at he; cases he
+  · rw [h] at he
+    rcases List.mem_cons.mp he with rfl | he
+    · rcases h0 with hid | ⟨_, _, _, _, _, hid⟩ <;> exact ⟨hid.2.1, hid.2.2.1, hid.2.2.2.1⟩
+    · obtain ⟨_, hid⟩ := hr e he
+      exact ⟨hid.2.1, hid.2.2.1, hid.2.2.2.1⟩
+
+-- non-vacuity: a CH-class alias with both a CH- and an IN-class target cached: the CH one is composed
+example :
+    let Hh : Bytes → UInt64 := fun b => UInt64.ofNat (b.foldl (fun acc x => acc * 257 + x.toNat + 1) 0)
+    let a : Entry := { id := 1, name := [0x61, 0x2E], qtype := 1, qclass := 3, cd := false, scope := none, alias := some [1, 0x74, 0] }
+    let t : Entry := { id := 2, name := [0x74, 0x2E], qtype := 1, qclass := 1, cd := false, scope := none }
+    let u : Entry := { id := 3, name := [0x54, 0x2E], qtype := 1, qclass := 3, cd := false, scope := none }
+    let st : AStore := [((CacheKey.mk a.name 1 3 false none).hash Hh, a), ((CacheKey.mk t.name 1 1 false none).hash Hh, t),
+                        ((CacheKey.mk u.name 1 3 false none).hash Hh, u)]
+    let W : World := { st := st.get, fs := fun _ => none, cs := {} }
+    (replyEntries (serveMsgFull Hh W [0x61, 0x2E] 1 3 false none false)).map (fun e => (e.id, e.qclass)) = [(1, 3), (3, 3)] := by
+  decide
 
 /-! ## Stores, refreshes, purge -/
 
@@ -774,46 +929,52 @@ theorem clampScope_bits (p : Policy) (scope source : Prefix) :
     simp only [if_true, if_false, Bool.false_eq_true, Nat.min_def] <;>
     (repeat' split) <;> omega
 
-/-- **The audience an answer is admitted for, exactly** (`WriteMsg` with a SCOPE in the
-response): the network of the asking client's forwarded source of length
-`min(SCOPE, SOURCE, floor of the source's family)` — never wider than the floor allows,
-whatever the other family's floor is, and always containing the asking client. -/
-theorem admitted_audience_exact (p : Policy) (src : Prefix) (sb : Nat) (s : Prefix)
-    (h : admitScope p (some src) (some sb) = some s) :
-    s.v6 = src.v6 ∧
-    s.bits = min (min sb src.bits) (if src.v6 then p.minScopeV6 else p.minScopeV4) ∧
-    s.addr = maskBytes s.bits src.addr ∧ s.containsPrefix src := by
+/-- **The audience an answer is admitted for, exactly** (`WriteMsg` with an ECS option in
+the response): the network of the address THE AUTHORITY NAMED, of
+`min(SCOPE, SOURCE, floor of that address's family)` bits — never wider than the floor of
+that family allows, whatever the other family's floor is. -/
+theorem admitted_audience_exact (p : Policy) (src ec s : Prefix)
+    (h : admitScope p (some src) (some ec) = some s) :
+    s.v6 = ec.v6 ∧
+    s.bits = min (min ec.bits src.bits) (if ec.v6 then p.minScopeV6 else p.minScopeV4) ∧
+    s.addr = maskBytes s.bits ec.addr := by
   unfold admitScope responseScope at h
-  by_cases h0 : sb = 0 ∨ sb > 8 * src.addr.length
+  by_cases h0 : ec.bits = 0 ∨ ec.bits > 8 * ec.addr.length
   · simp [h0] at h
   · simp only [h0, if_false, Option.some.injEq] at h
     subst h
-    obtain ⟨h1, h2, h3⟩ := clampScope_bits p (src.withBits sb) src
-    have hb : (clampScope p (src.withBits sb) src).bits ≤ sb := by
+    obtain ⟨h1, h2, h3⟩ := clampScope_bits p (ec.withBits ec.bits) src
+    have hb : (clampScope p (ec.withBits ec.bits) src).bits ≤ ec.bits := by
       rw [h2]; simp only [Prefix.withBits]; omega
-    have haddr : (clampScope p (src.withBits sb) src).addr =
-        maskBytes (clampScope p (src.withBits sb) src).bits src.addr := by
-      rw [h3]; simp only [Prefix.withBits]
-      exact maskBytes_maskBytes_le _ _ hb _
-    refine ⟨h1, h2, haddr, h1, ?_, haddr.symm⟩
-    rw [h2]; simp only [Prefix.withBits]; omega
+    refine ⟨h1, h2, ?_⟩
+    rw [h3]; simp only [Prefix.withBits]
+    exact maskBytes_maskBytes_le _ _ hb _
 
-/-- no SCOPE in the response, SCOPE 0, or a request outside ECS-aware caching: shared. -/
-theorem admitted_shared_otherwise (p : Policy) (client : Scope) (sbits : Option Nat)
-    (h : client = none ∨ sbits = none ∨ sbits = some 0) : admitScope p client sbits = none := by
+/-- … and when the authority echoes the subnet it was sent (RFC 7871 §7.3), that network
+contains the asking client. -/
+theorem admitted_audience_contains_asker (p : Policy) (src ec s : Prefix)
+    (hfam : ec.v6 = src.v6) (haddr : ec.addr = src.addr)
+    (h : admitScope p (some src) (some ec) = some s) : s.containsPrefix src := by
+  obtain ⟨h1, h2, h3⟩ := admitted_audience_exact p src ec s h
+  refine ⟨by rw [h1, hfam], by rw [h2]; omega, ?_⟩
+  rw [h3, haddr]
+
+/-- no ECS option in the response, SCOPE 0, or a request outside ECS-aware caching: shared. -/
+theorem admitted_shared_otherwise (p : Policy) (client : Scope) (echo : Option Prefix)
+    (h : client = none ∨ echo = none ∨ ∃ ec, echo = some ec ∧ ec.bits = 0) : admitScope p client echo = none := by
   unfold admitScope responseScope
-  rcases h with h | h | h <;> subst h
+  rcases h with h | h | ⟨ec, h, h0⟩ <;> subst h
   · rfl
   · cases client <;> rfl
-  · cases client <;> simp
+  · cases client <;> simp [h0]
 
 /-- **`WriteMsg` files the answer under its own key with that identity**: question and CD
 of the response, the clamped scope both in the key preimage and on the entry. -/
 theorem admit_records_identity (H : Bytes → UInt64) (p : Policy) (s : AStore) (id : Nat) (name : Bytes)
-    (qtype qclass : UInt16) (cd : Bool) (client : Scope) (sbits : Option Nat) :
-    ∃ e, (admitAnswer H p s id name qtype qclass cd client sbits).get
-          ((CacheKey.mk name qtype qclass cd (admitScope p client sbits)).hash H) = some e ∧
-      Identical e name qtype qclass cd (admitScope p client sbits) := by
+    (qtype qclass : UInt16) (cd : Bool) (client : Scope) (echo : Option Prefix) :
+    ∃ e, (admitAnswer H p s id name qtype qclass cd client echo).get
+          ((CacheKey.mk name qtype qclass cd (admitScope p client echo)).hash H) = some e ∧
+      Identical e name qtype qclass cd (admitScope p client echo) := by
   unfold admitAnswer
   exact (admission_records_identity s _ id name qtype qclass cd _ none).1
 
@@ -846,7 +1007,8 @@ theorem refresh_request_keeps_partition (t : Req) :
 -- is admitted for 2001:db8:aaaa::/48 — not for the /24 the IPv4 floor would give
 example :
     admitScope { forwardV4 := 24, forwardV6 := 56, minScopeV4 := 24, minScopeV6 := 48 }
-      (some { v6 := true, bits := 56, addr := [0x20, 0x01, 0x0d, 0xb8, 0xaa, 0xaa, 0xbb, 0, 0, 0, 0, 0, 0, 0, 0, 0] }) (some 56) =
+      (some { v6 := true, bits := 56, addr := [0x20, 0x01, 0x0d, 0xb8, 0xaa, 0xaa, 0xbb, 0, 0, 0, 0, 0, 0, 0, 0, 0] })
+      (some { v6 := true, bits := 56, addr := [0x20, 0x01, 0x0d, 0xb8, 0xaa, 0xaa, 0xbb, 0, 0, 0, 0, 0, 0, 0, 0, 0] }) =
     some { v6 := true, bits := 48, addr := [0x20, 0x01, 0x0d, 0xb8, 0xaa, 0xaa, 0, 0, 0, 0, 0, 0, 0, 0, 0, 0] } := by decide
 -- non-vacuity: a CD=1 entry refreshed: the replacement is in the CD=1 partition
 example :
@@ -878,6 +1040,18 @@ theorem model_ddd_range : ∀ b : UInt8,
     (b < 0x20 || b > 0x7E) = decide (b.toNat ≤ 31 ∨ (127 ≤ b.toNat ∧ b.toNat ≤ 255)) := by
   apply forall_uint8
   decide +kernel
+
+/-- **The library functions the model abstracts, pinned on their whole ASCII domain.**
+`strings.EqualFold` (the scoped sweep of `Store.Purge`) equates every ASCII octet with its
+case twin — the hypothesis `hEF` of `purge_removes_question` on one-octet names — and no two
+other ASCII octets; `dns.CanonicalName` is "lower-case `A–Z`" on every octet below 0x80
+and rewrites exactly the octets 0x80–0xFF (which no decoder in the tree leaves unescaped):
+the domain on which `canonicalName = foldName`. -/
+theorem library_folds_match :
+    SdnsVerif.Gen.C03.equalfold_covers_ascii_fold = true ∧
+    SdnsVerif.Gen.C03.equalfold_extra_ascii_pairs = [] ∧
+    SdnsVerif.Gen.C03.canonicalname_rewritten_bytes = [128, 255] := by
+  decide
 
 /-- index salts and the chase bound of the current tree are the model's; the three
 salted index spaces are pairwise distinct from each other and from the answer keys. -/
